@@ -195,7 +195,11 @@ def check_c19(case, stats):
     # for the original and the transformed data, and the start points must agree
     f1, a1, f2, a2 = rec1['fun'], rec1['args'], rec2['fun'], rec2['args']
     x0a, x0b = rec1['x0'], rec2['x0']
-    if np.abs(x0a - x0b).max() > 1e-6 * max(np.abs(x0a).max(), 1e-300):
+    # (rows produced by pca / lda carry an arbitrary sign, and the objectives are even in every row of L)
+    ra_, rb_ = x0a.reshape(-1, X.shape[1]), x0b.reshape(-1, X.shape[1])
+    if ra_.shape == rb_.shape:
+      x0b = np.where((np.abs(ra_ - rb_).max(axis=1) <= np.abs(ra_ + rb_).max(axis=1))[:, None], rb_, -rb_).ravel()
+    if x0a.shape != x0b.shape or np.abs(x0a - x0b).max() > 1e-6 * max(np.abs(x0a).max(), 1e-300):
       raise Violation('C19/%s/%s/initialisation' % (rel, name), 'start points differ by %g relative' % (np.abs(x0a - x0b).max() / max(np.abs(x0a).max(), 1e-300)))
     nfeat = X.shape[1]
     for Lflat in (x0a, np.asarray(e1.components_).ravel(), x0a * 0.5 + 0.1):
